@@ -86,7 +86,12 @@ let instr = function
   | VL (t :: n :: args) when tag t = "op" -> IOp (op (tag n) args)
   | VL [t] when tag t = "join" -> IJoin
   | _ -> failwith "instr"
-let prog v = gl instr v
+(* ["touch"] asks the implementation to hash, print and read every accessor of the
+   value on top of the stack; for the pure model that is the identity, so it is skipped *)
+let is_touch = function VL [VS _ as t] when tag t = "touch" -> true | _ -> false
+let prog v = match v with
+  | VL l -> List.map instr (List.filter (fun x -> not (is_touch x)) l)
+  | _ -> gl instr v
 
 let rec vval = function
   | WStr s -> vs s
